@@ -11,12 +11,21 @@ HCONC_RACE = os.path.join(C.BIN, "hconc-race")
 EXTRA_GO = (("./cmd/hconc", "hconc", {}), ("./cmd/hconc", "hconc-race", {"race": True}))
 
 
-def run_hconc(sub, args, race=False, timeout=1800):
+def run_hconc(sub, args, race=False, timeout=None):
     """Returns (rounds, race_report or None)."""
     env = dict(C.GOENV)
     env["GORACE"] = "halt_on_error=0 exitcode=0"
-    p = subprocess.run([HCONC_RACE if race else HCONC, sub] + list(args), env=env, stdout=subprocess.PIPE,
-                       stderr=subprocess.PIPE, text=True, timeout=timeout)
+    if timeout is None:
+        # generous for the number of rounds asked; a library that deadlocks must not hang the check
+        n = int(args[args.index("-rounds") + 1]) if "-rounds" in args else 60
+        timeout = 240 + 3 * n
+    try:
+        p = subprocess.run([HCONC_RACE if race else HCONC, sub] + list(args), env=env, stdout=subprocess.PIPE,
+                           stderr=subprocess.PIPE, text=True, timeout=timeout)
+    except subprocess.TimeoutExpired as e:
+        out = e.stdout.decode() if isinstance(e.stdout, bytes) else (e.stdout or "")
+        rounds = [json.loads(l) for l in out.splitlines() if l.strip().startswith("{")]
+        return rounds, "the stress run did not finish within %d s after %d completed rounds: some call into the library never returns (deadlock)" % (timeout, len(rounds))
     rounds = []
     for l in p.stdout.splitlines():
         l = l.strip()
@@ -26,8 +35,10 @@ def run_hconc(sub, args, race=False, timeout=1800):
     if "DATA RACE" in p.stderr:
         i = p.stderr.index("WARNING: DATA RACE")
         report = p.stderr[i:i + 3000]
-    elif "fatal error: concurrent map" in p.stderr:
-        i = p.stderr.index("fatal error: concurrent map")
+    elif "fatal error: " in p.stderr:
+        # the Go runtime gave up inside the library under test: concurrent map access, all goroutines asleep (a lock
+        # that is never released), unlock of an unlocked mutex, stack overflow …
+        i = p.stderr.index("fatal error: ")
         report = p.stderr[i:i + 1500]
     elif p.returncode != 0 and not rounds:
         raise C.Infra("hconc %s failed (%d): %s" % (sub, p.returncode, p.stderr[-2000:]))
